@@ -421,6 +421,11 @@ func (g *Gen) genFMA(p *Prog) {
 			}
 		}
 	}
+	if g.chance(0.08) && x.Form == 1 && y.Form == 1 {
+		// precision-0 receiver: the result precision is the largest of ALL three operands, also when u is ±0
+		u = Val{Form: 0, Neg: g.intn(2) == 0, Prec: uint(len(x.Digits)+len(y.Digits)) + uint(g.intn(30)), Mode: g.mode()}
+		prec = 0
+	}
 	vals := []Val{g.receiver(prec, mode), x, y, u}
 	sh := g.aliasShape(4, 0.3)
 	vi := p.loadShape(vals, sh)
@@ -547,6 +552,24 @@ func (g *Gen) genCmp(p *Prog) {
 		z2 := p.Load(Val{Form: 0, Neg: g.intn(2) == 0, Prec: 3})
 		p.cmp(zi, z2)
 		p.cmp(z2, zi)
+		p.Exec(fmt.Sprintf("sign %d", zi))
+		// more zeros with history: a setter of 0, a product with 0, an underflow
+		v2 := g.finite()
+		w := p.Load(v2)
+		switch g.intn(3) {
+		case 0:
+			p.Exec(fmt.Sprintf("setuint64 %d 0", w))
+		case 1:
+			p.Exec(fmt.Sprintf("mul %d %d %d", w, w, z2))
+		default:
+			p.Exec(fmt.Sprintf("setmantexp %d %d %d", w, w, int64(decimal.MinExp)-v2.Exp-3))
+		}
+		p.Exec(fmt.Sprintf("sign %d", w))
+		p.cmp(w, z2)
+		p.cmp(w, zi)
+		if g.chance(0.5) {
+			p.Exec(fmt.Sprintf("sqrt %d %d", z2, w))
+		}
 		return
 	}
 	x := g.any()
